@@ -2,6 +2,7 @@ package migrations
 
 import (
 	"strings"
+	"unicode/utf8"
 
 	"github.com/Masterminds/semver"
 	"github.com/nyaruka/gocommon/i18n"
@@ -203,7 +204,7 @@ func Migrate13_2(f Flow, cfg *Config) (Flow, error) {
 	localization := f.Localization()
 
 	// if we don't have a valid language, replace it
-	if len(language) != 3 {
+	if utf8.RuneCountInString(language) != 3 {
 		f["language"] = "und"
 		if localization != nil {
 			delete(localization, "und")
